@@ -963,3 +963,41 @@ impl RwsStrEq for str {
     #[verifier::external_body]
     fn rws_eq_str(&self, o: &str) -> bool { self == o }
 }
+
+// .contains(): substring test on strings, membership on vectors of strings
+pub trait RwsContains<A> {
+    spec fn contains_spec(&self, a: A) -> bool;
+    fn rws_contains(&self, a: A) -> (r: bool)
+        ensures r == self.contains_spec(a);
+}
+impl<'a> RwsContains<&'a str> for str {
+    open spec fn contains_spec(&self, a: &'a str) -> bool { has_sub(self@, a@) }
+    #[verifier::external_body]
+    fn rws_contains(&self, a: &'a str) -> bool { self.contains(a) }
+}
+impl<'a> RwsContains<&'a String> for str {
+    open spec fn contains_spec(&self, a: &'a String) -> bool { has_sub(self@, a@) }
+    #[verifier::external_body]
+    fn rws_contains(&self, a: &'a String) -> bool { self.contains(a.as_str()) }
+}
+impl<'a> RwsContains<&'a str> for String {
+    open spec fn contains_spec(&self, a: &'a str) -> bool { has_sub(self@, a@) }
+    #[verifier::external_body]
+    fn rws_contains(&self, a: &'a str) -> bool { self.contains(a) }
+}
+impl<'a> RwsContains<&'a String> for String {
+    open spec fn contains_spec(&self, a: &'a String) -> bool { has_sub(self@, a@) }
+    #[verifier::external_body]
+    fn rws_contains(&self, a: &'a String) -> bool { self.contains(a.as_str()) }
+}
+pub open spec fn member(v: Seq<Seq<char>>, x: Seq<char>) -> bool { exists|i: int| 0 <= i < v.len() && #[trigger] v[i] == x }
+impl<'a> RwsContains<&'a String> for Vec<String> {
+    open spec fn contains_spec(&self, a: &'a String) -> bool { member(views(self@), a@) }
+    #[verifier::external_body]
+    fn rws_contains(&self, a: &'a String) -> bool { self.contains(a) }
+}
+impl<'a, 'b, 'c> RwsContains<&'a &'b str> for Vec<&'c str> {
+    open spec fn contains_spec(&self, a: &'a &'b str) -> bool { member(sviews(self@), (*a)@) }
+    #[verifier::external_body]
+    fn rws_contains(&self, a: &'a &'b str) -> bool { self.iter().any(|x| **x == **a) }
+}
